@@ -21,7 +21,7 @@ func C17(r *core.Report) {
 		"R5 HTTP typestate - a response body is read only after the status code was tested on that path; R6 the remote read is complete when success is returned (err == nil known or count compared), same rule as C13.R2. " +
 		"R7 no byte slice that aliases a buffer field of the shared RangeCache (directly, through a reslice, a local copy or an alias-returning helper) is returned by an exported function or a closure of the package. " +
 		"R9 the error of a fetch (a call returning a count and an error) is not overwritten with nil unless a dominating comparison mentions that call's count. " +
-		"Not decided: the interval arithmetic of superset hits and of subset eviction, expiry races beyond the lock discipline."
+		"R9 also: a callback that binds a fetch error returns nil only where that error is known to be nil. Not decided: the interval arithmetic of superset hits and of subset eviction, expiry races beyond the lock discipline."
 	r.Assumptions = []string{"sync.RWMutex semantics; io.ReaderAt / io.ReadFull contracts; net/http delivers the status line before the body"}
 	inPkg := func(f *core.Func) bool {
 		pk := core.ShortPkg(f.Pkg.PkgPath)
@@ -45,6 +45,7 @@ func C17(r *core.Report) {
 	c17EntryLengthInvariant(r)
 	r.Floor("C17.R8", 1)
 	c17NoErrorErasure(r)
+	c17NoSwallowedFetchError(r)
 	r.Floor("C17.R9", 1)
 	r.Floor("C17.R1", 10)
 	r.Floor("C17.R2", 1)
